@@ -372,25 +372,5 @@ theorem trsoF_iff_idAlg {topo : MG Name → Except Err (List Name)} (ht : TopoGo
 
 /-! ### the property -/
 
-/-- **TRSO without experiments is ID (verdict level).**  On a validated input over a well-formed acyclic graph whose
-source domains declare no experiment, `identify_target_outcomes` returns an estimand exactly when `identify` (ID on the
-target's graph) does. -/
-theorem trso_no_surrogate_iff_id_partial {topo : MG Name → Except Err (List Name)} (ht : TopoGood topo) (sep : SepTest)
-    (G : MG Name) (hG : G.WF) (hA : G.Acyclic) (hsmall : ∀ v ∈ G.nodes, v < 200) (Y X : List Name)
-    (outcomes interventions : List (Pop × List Name)) (hv : validInput G Y X outcomes interventions = true) (hY : Y ≠ [])
-    (hZ : ∀ p ∈ interventions, p.2 = []) :
-    (∃ e, identifyTargetOutcomes sep G Y X outcomes interventions = .ok (some e)) ↔
-      (∃ e', identify topo G X Y = .ok e') := by
-  obtain ⟨graphs, hg⟩ := surrogateToTransport_ok hG hv
-  obtain ⟨hinv, hmu, hc⟩ := initial_inv hG hA (noT_of_small hsmall) hsmall hv hY hg
-  rw [identify_eq_trso hv hg]
-  obtain ⟨hYin, _, _, _, hXY, _, hne⟩ := validInput_spec hv
-  obtain ⟨c, hcj⟩ := pJoint_ok hne
-  unfold identify trso
-  rw [hcj]
-  exact trsoF_iff_idAlg ht sep _ _ _ G _ hinv (initial_noSurr hZ) hc hmu
-    ⟨hG, MG.acyclic_ranked hG hA, hYin, hY, hXY, trivial⟩
-    ⟨MG.equiv_refl G, fun v => (mem_nsort v X).symm, fun v => (mem_nsort v Y).symm⟩
-
 end Trso
 end Y0
